@@ -326,7 +326,7 @@ variable {env : Env} (hflt : env.flt = false) (cfg' : FromValue.Cfg) (hap : cfg'
 /-- the separator that follows a member's value is admissible (`,` or `}`) -/
 theorem sepOK_mtail (kvs : List (Bytes × JV)) (rest : Bytes) : SepOK (Tmtail ext kvs ++ 0x7d :: rest) := by
   cases kvs with
-  | nil => exact .inr ⟨0x7d, rest, rfl, .inr (.inr rfl)⟩
+  | nil => exact .inr ⟨0x7d, rest, rfl, .inr (.inr (.inl rfl))⟩
   | cons x xs => exact .inr ⟨0x2c, _, rfl, .inl rfl⟩
 
 /-- the text of the members still to be read: all of them (`first`), or a comma and the rest -/
